@@ -114,6 +114,10 @@ def run_c07(run_, rng, tier):
         run_.count(c, True, "L1 " + c.split()[0] + " " + impl[i].split()[0][:6])
         if impl[i].startswith("CRASH"):
             bad.append((i, "the sanitizer build of the library stopped on this call: " + impl[i][:300], dict(case=c, impl=impl[i])))
+        elif impl[i].startswith("HANG"):
+            bad.append((i, "the library never returned from this call (%s): patch would not exit" % impl[i], dict(case=c, impl=impl[i])))
+        elif impl[i].startswith("SKIPPED"):
+            continue
         elif impl[i] != model[i]:
             mism.append((i, "L1 (sanitizer flavour)", dict(case=c, impl=impl[i], model=model[i])))
     scns = l2_scenarios(rng, 400 if q else 8000)
@@ -179,15 +183,33 @@ def run_c08(run_, rng, tier):
             if rng.random() < 0.5:
                 o["file"] = "f"
             scns.append(dict(tree=tree, opts=o, umask=0o022, no_model=(kind == "zero")))
+    # standard input that cannot be read (a directory), with and without a file operand
+    for o in ({}, {"file": "f"}, {"f": 1}, {"dry": 1}):
+        scns.append(dict(tree={"f": ("R", 0o644, b"a\nb\n")}, opts=dict(o, p=1), umask=0o022, stdin_is="dir", no_model=True))
+    # targets that have to be refused, under --dry-run, with the file named on the command line: the refusal still has to
+    # consume the hunks
+    import l2props
+    for s0 in l2props.refusal_scenarios(rng, 40 if q else 400):
+        s0["opts"].update(rng.choice([{}, {"dry": 1}, {"dry": 1}]))
+        if rng.random() < 0.6:
+            s0["opts"]["file"] = s0["secs"][0]["path"]
+        if rng.random() < 0.3:
+            s0["opts"]["ro"] = "fail"
+        scns.append(s0)
+    import wide
+    scns += [wide.wide_scenario(rng) for _ in range(150 if q else 3000)]
     t0 = time.time()
     results = run_many(exe, scns, timeout=10)
     bad = []
+    def psize(s):
+        return len(s["tree"]["p.diff"][2]) if "p.diff" in s["tree"] else len(s.get("stdin") or b"")
     for i, (s, r) in enumerate(zip(scns, results)):
         run_.count(l2.model_line(s), True, "exit %d" % r["exit"] if not r.get("timed_out") else "timeout")
         if r.get("timed_out"):
-            bad.append((i, "did not terminate within 10 s on a patch of %d bytes" % len(s["tree"]["p.diff"][2]), dict(scenario=describe(s))))
+            bad.append((i, "did not terminate within 10 s on a patch of %d bytes%s" % (psize(s), " (standard input is a directory: every read fails)" if s.get("stdin_is") else ""),
+                        dict(scenario=describe(s), stdin_is=s.get("stdin_is"))))
         elif len(r["stdout"]) > 200000:
-            bad.append((i, "produced %d bytes of output for a patch of %d bytes" % (len(r["stdout"]), len(s["tree"]["p.diff"][2])), dict(scenario=describe(s))))
+            bad.append((i, "produced %d bytes of output for a patch of %d bytes" % (len(r["stdout"]), psize(s)), dict(scenario=describe(s))))
     model = run_model([l2.model_line(s) for s in scns])
     mism = []
     for i, (s, r, ml) in enumerate(zip(scns, results, model)):
